@@ -309,6 +309,35 @@ def gdt_rules(ctx):
     ctx.ob("C11.gdt", "facilities", "typed-differences-seen", n_sub >= 1, f"{n_sub} wrap-aware differences of GenerationDeltaTime objects found (type inference sees them)", loc)
 
 
+def reception_clock(ctx):
+    """The receiver reconstructs the generation time relative to NOW in milliseconds: the argument handed to
+    as_timestamp_in_certain_point is the wall clock scaled to ms before any truncation (int(t * 1000), not int(t) * 1000 -
+    a clock truncated to whole seconds makes a message generated within the running second look like it lies in the future,
+    and the reconstruction falls back one full 65.536 s cycle)."""
+    P = ctx.prog
+    n = 0
+    for fi in P.iter_funcs():
+        if "facilities" not in fi.module.name:
+            continue
+        for c in P.calls_in(fi):
+            if not (isinstance(c.func, ast.Attribute) and c.func.attr == "as_timestamp_in_certain_point" and c.args):
+                continue
+            n += 1
+            fl = ctx.flows.get(fi)
+            x = fl.expand(c.args[0], fl.state_at(c))
+            inner = x.args[0] if isinstance(x, ast.Call) and dotted(x.func) in ("int", "round") and len(x.args) == 1 else x
+            ren = lambda q: pretty(q)
+            got = to_poly(P, fi.module, inner, ren)
+            ok = len(got.t) == 1 and list(got.t.values())[0] == 1000 and all(("time" in a.lower()) and "int(" not in a for k in got.t for a in k) \
+                and all(len(k) == 1 for k in got.t)
+            ctx.ob("C11.gdt", fi.short(), "reception-time-in-ms", ok,
+                   f"reconstruction is anchored at `{pretty(unparse(x))[:70]}` = the clock in milliseconds" if ok else
+                   f"reconstruction is anchored at `{pretty(unparse(x))[:70]}`, which is not the wall clock scaled to milliseconds before "
+                   "truncation: messages generated within the running second are reconstructed 65 536 ms early", f"{fi.module.rel}:{c.lineno}")
+    if n < 2:
+        raise AnalysisError(f"C11: only {n} call sites of as_timestamp_in_certain_point found (confirmed: CAM and VAM reception)")
+
+
 def report_keys(ctx):
     """A position report may lack any optional field (no fix yet, standstill, accuracy unknown): every `report['k']` read on
     the transmission paths must be dominated by a presence test of that key (`'k' in report`), as the CA service does
@@ -382,6 +411,7 @@ def run(ctx):
         ("facilities.decentralized_environmental_notification_service.denm_reception_management.DENMReceptionManagement.reception_callback", "denm")])
     ctx.extra["reader_paths"] = nr
     gdt_rules(ctx)
+    reception_clock(ctx)
     report_keys(ctx)
     ctx.floor("C11.gdt", 6)
     ctx.floor("C11.schema", 325, "typed positions")
